@@ -110,6 +110,15 @@ func (t *PageTree) Count() (int, error) {
 		return 0, fmt.Errorf("page tree missing /Count entry")
 	}
 
+	// Like any value, /Count may be given by reference
+	if t.resolver != nil {
+		resolved, err := t.resolver.Resolve(countObj)
+		if err != nil {
+			return 0, fmt.Errorf("failed to resolve /Count: %w", err)
+		}
+		countObj = resolved
+	}
+
 	count, ok := countObj.(core.Int)
 	if !ok {
 		return 0, fmt.Errorf("invalid /Count type: %T", countObj)
